@@ -239,6 +239,87 @@ pub fn midsize_families(k: usize, r: usize, variants: usize) -> Vec<(String, Vec
     out
 }
 
+/// Directed choice of erasure sets: candidates (scattered losses, exactly sufficient) are run through the real
+/// `eval_poly` on the erasure vector the decoder of that rate builds (documented layout), and the sets are kept
+/// for which the locator takes one of its two special raw values - 0 or 65535, the same residue modulo 65535 -
+/// at a *received* position. Consumers of the locator must treat both alike. Returns (sets, zeros, ffffs).
+pub fn special_locator_sets(high: bool, k: usize, r: usize, want: usize) -> (Vec<(String, Vec<usize>, Vec<usize>)>, usize, usize) {
+    use reed_solomon_simd::engine::{Engine, NoSimd, GF_ORDER};
+    let mut out = Vec::new();
+    let (mut n0, mut n1) = (0usize, 0usize);
+    let m = k.min(r);
+    if m < 3 {
+        return (out, 0, 0);
+    }
+    for t in 0..160u64 {
+        if n0 >= want && n1 >= want {
+            break;
+        }
+        let mult = 0x9E37_79B9_7F4A_7C15u64.wrapping_mul(2 * t + 1) | 1;
+        let nloss = [3usize, 5, m.min(17), m.min(64), m.min(300)][(t % 5) as usize];
+        let mut lost_flag = vec![false; k];
+        let mut nl = 0;
+        let mut x = t + 1;
+        while nl < nloss {
+            x = x.wrapping_mul(mult).wrapping_add(0x1234_5677);
+            let i = (x >> 17) as usize % k;
+            if !lost_flag[i] {
+                lost_flag[i] = true;
+                nl += 1;
+            }
+        }
+        let mut given_r = vec![false; r];
+        let mut ng = 0;
+        while ng < nloss {
+            x = x.wrapping_mul(mult).wrapping_add(0x0765_4321);
+            let j = (x >> 19) as usize % r;
+            if !given_r[j] {
+                given_r[j] = true;
+                ng += 1;
+            }
+        }
+        let mut er: Box<[u16; GF_ORDER]> = vec![0u16; GF_ORDER].into_boxed_slice().try_into().unwrap();
+        let mut received: Vec<usize> = Vec::new();
+        if high {
+            let chunk = pow2ceil(r);
+            for j in 0..r {
+                if given_r[j] { received.push(j) } else { er[j] = 1 }
+            }
+            for p in r..chunk {
+                er[p] = 1;
+            }
+            for i in 0..k {
+                if lost_flag[i] { er[chunk + i] = 1 } else { received.push(chunk + i) }
+            }
+            NoSimd::eval_poly(&mut er, chunk + k);
+        } else {
+            let chunk = pow2ceil(k);
+            for i in 0..k {
+                if lost_flag[i] { er[i] = 1 } else { received.push(i) }
+            }
+            for j in 0..r {
+                if given_r[j] { received.push(chunk + j) } else { er[chunk + j] = 1 }
+            }
+            for p in chunk + r..GF_ORDER {
+                er[p] = 1;
+            }
+            NoSimd::eval_poly(&mut er, GF_ORDER);
+        }
+        let has0 = received.iter().any(|p| er[*p] == 0);
+        let hasm = received.iter().any(|p| er[*p] == 65535);
+        let keep0 = has0 && n0 < want;
+        let keepm = hasm && n1 < want;
+        if keep0 || keepm {
+            if keep0 { n0 += 1 }
+            if keepm { n1 += 1 }
+            let og: Vec<usize> = (0..k).filter(|i| !lost_flag[*i]).collect();
+            let rg: Vec<usize> = (0..r).filter(|j| given_r[*j]).collect();
+            out.push((format!("locator{}{}-cand{t}", if has0 { "-zero" } else { "" }, if hasm { "-ffff" } else { "" }), og, rg));
+        }
+    }
+    (out, n0, n1)
+}
+
 pub fn run(ctx: &Ctx, rep: &mut Report) {
     let seed = ctx.seed;
     let soil = seed | 1;
@@ -514,7 +595,7 @@ pub fn run(ctx: &Ctx, rep: &mut Report) {
     }
     rep.bound("family_cfg", J::s(format!("{big:?}")));
     let thorough = ctx.thorough();
-    let fam_results: Vec<(u64, u64, u64, Vec<Violation>, Option<String>)> = par_for(fam_specs.len(), 1, |i| {
+    let fam_results: Vec<(u64, u64, u64, Vec<Violation>, Option<String>, (usize, usize))> = par_for(fam_specs.len(), 1, |i| {
         let s = &fam_specs[i];
         let mut viols = Vec::new();
         let g = match build_group(s.eng, s.codec, s.k, s.r, &s.data, s.soil, seed) {
@@ -522,11 +603,20 @@ pub fn run(ctx: &Ctx, rep: &mut Report) {
             Err(e) => {
                 let kv = Kv::new().with("eng", s.eng).with("codec", s.codec).with("k", s.k).with("r", s.r).with("data", &s.data).with("soil", s.soil).with("seed", seed).with("og", "-").with("rg", "-");
                 viols.push(Violation { key: format!("encode-{}-{}-{}-{}", s.codec, s.eng, s.k, s.r), case: kv.dump(), expected: "encode Ok".into(), observed: e });
-                return (0, 0, 0, viols, None);
+                return (0, 0, 0, viols, None, (0, 0));
             }
         };
-        let fams = families(g.k, g.r);
+        let mut fams = families(g.k, g.r);
         let (mut n, mut adds, mut nt) = (0u64, 0u64, 0u64);
+        let mut special = (0usize, 0usize);
+        if i >= grid_end && s.k.min(s.r) >= 3 {
+            // directed: erasure sets whose locator is exactly 0 / exactly 65535 at a received position (front of the list)
+            let (sets, z, f) = special_locator_sets(spec_is_high(codec_kind(&g.codec), g.k, g.r), g.k, g.r, if thorough { 4 } else { 2 });
+            special = (z, f);
+            let mut v = sets;
+            v.extend(fams);
+            fams = v;
+        }
         let mut sample = None;
         let cap = if i < grid_end { 12 } else if thorough || s.k + s.r <= 1200 { usize::MAX } else { 38 };
         for (name, og, rg) in fams.iter().take(cap) {
@@ -547,10 +637,13 @@ pub fn run(ctx: &Ctx, rep: &mut Report) {
                 });
             }
         }
-        (n, adds, nt, viols, sample)
+        (n, adds, nt, viols, sample, special)
     });
     let mut fam_cases = 0u64;
-    for (n, adds, nt, viols, sample) in fam_results {
+    let (mut loc_zero, mut loc_ffff) = (0usize, 0usize);
+    for (n, adds, nt, viols, sample, special) in fam_results {
+        loc_zero += special.0;
+        loc_ffff += special.1;
         fam_cases += n;
         rep.states += n;
         rep.traces += n;
@@ -565,6 +658,9 @@ pub fn run(ctx: &Ctx, rep: &mut Report) {
         }
     }
     rep.extra("family_groups", J::i(fam_specs.len()));
+    rep.extra("directed_locator_sets_with_raw_0_at_a_received_position", J::i(loc_zero));
+    rep.extra("directed_locator_sets_with_raw_65535_at_a_received_position", J::i(loc_ffff));
+    rep.bound("directed_locator_values", J::s("large configurations: up to 160 scattered candidate sets are run through the real eval_poly on the erasure vector of the rate's documented layout; the first 2 (4) sets whose locator is exactly 0, and exactly 65535, at a received position are decoded (counts above; 0 occurs only beyond position 32768)"));
     rep.extra("family_cases", J::i(fam_cases));
     rep.bound("family_prefix_quick", J::s("quick: configurations with more than 1200 shards run the first 38 patterns of the (fixed-order) family list (hyperplane halves, then 24 scattered erasure sets - exact and with one surplus shard - where the work area reaches beyond position 32768, then the maximum-loss / window patterns); thorough runs all"));
 }
